@@ -3,6 +3,8 @@ LEVEL = "other"
 EXPLANATION = ("Bounded runtime contract at the public interface: pairs of ConfigLoader instances built from the same physics with permuted chain "
                "declaration order and/or re-optioned data section (align_ref, random_z, center_mass, only_left_angle) receive identical parameters by name "
                "and identical four-momenta; their densities must agree.  The SU(2) kernel contracts of DESIGN C02 are separate (proof) groups.")
-ASSUMPTIONS = ["A-MATH: a change of alignment reference is a common unitary rotation of the final helicity basis (assumed, sampled here)"]
+ASSUMPTIONS = ["A-MATH: a change of alignment reference / z-axis convention acts on every chain as ONE common rotation of each final particle's helicity basis "
+               "(kinematic fact, sampled by the bounded groups); that such a rotation leaves sum_helicities |.|^2 unchanged is the proved unitarity of the real "
+               "D-matrices (dfun.D_matrix_conj/2j<=3) and the proved SU2M algebra / Euler-angle extraction (angle.SU2M.*)"]
 
-from vt.contracts import iface_amp  # noqa: F401,E402
+from vt.contracts import dfun_sym, iface_amp, su2  # noqa: F401,E402
